@@ -535,6 +535,12 @@ func (r *bkRig) watch(S uint64, P []byte, lazy bool, between, after func()) *bw 
 	ctx, cancel := context.WithCancel(context.Background())
 	w.cancel = cancel
 	w.th = sched.Go(fmt.Sprintf("watch-%p-%d", r, w.id), func() {
+		defer func() {
+			if rec := recover(); rec != nil {
+				w.err = fmt.Errorf("panic: %v", rec)
+				r.failf("Watch(S=%d, P=%q) panicked: %v", S, P, rec)
+			}
+		}()
 		w.ch, w.err = r.b.Watch(ctx, string(P), S)
 	})
 	d := 20 * time.Second
